@@ -538,6 +538,17 @@ HELPER_CLAUSES = {
     "ValueBigUint::new_bigint": "requires |v| < 2^width; payload = v mod 2^width (Euclidean), mask 0",
     "ValueBigUint::{new_biguint,new_x,is_xz,payload,mask_xz,to_usize}, ValueU64::{new,new_x,gen_mask,is_xz,new_bit_*,to_usize}, Value::{width,signed,is_xz,to_shift_amount}, b0, b1, resize":
         "field-level meaning (new_x: payload 0, mask 2^width - 1; gen_mask(u64) = 2^min(width,64) - 1; to_shift_amount: None iff x/z, else the value saturated at usize::MAX; resize == expand for operands not wider than the context)",
+    "ValueBigUint::gen_mask_range": "bit k of the result is set iff end <= k <= beg (all beg < usize::MAX, all end)",
+    "ValueBigUint::trunc / ValueU64::trunc": "payload' = payload mod 2^width, mask' = mask mod 2^width, width' = width, signed unchanged",
+    "ValueBigUint::select": "beg < end: the default value (width 0, zero, unsigned); else width beg-end+1, UNSIGNED (11.8.1), payload/mask < 2^width, bit k == bit k+end of self for k <= beg-end (positions beyond the value read 0)",
+    "ValueBigUint::assign": "requires wfb(self), end <= beg < width; bits end..=beg come from value bits 0.., every other bit unchanged (frame), width/signed unchanged, wfb preserved",
+    "ValueBigUint::to_value_u64": "Some(the same fields as a ValueU64) iff width <= 64 and payload, mask fit 64 bits; else None",
+    "Value::select": "self in BigUint form: wf(result); beg < end: width-0 zero; else width beg-end+1, unsigned, 4-state position k == position k+end of self, result in U64 form iff its width <= 64",
+    "Value::trunc": "requires wf, width >= 1: all-bit literal -> its bit replicated over `width` positions (unsigned); self not wider than `width` -> unchanged; else payload, mask mod 2^width (position k kept for k < width, lemma_trunc_bits), "
+                    "signed unchanged; in both changing cases the result is in U64 form iff width <= 64; wf(result)",
+    "Value::concat": "both sized, total width in 65..2^32-1: result BigUint, unsigned, width = sum, {self, x} layout: position k < vw(x) from x, position k >= vw(x) from self at k - vw(x); value = self * 2^vw(x) + x",
+    "Value::assign": "self in BigUint form, end <= beg < width, value any wf value: positions end..=beg = value positions 0.. (zero beyond the value's width), all other positions unchanged, width/signed/form unchanged, wf",
+    "Value::set_value": "self in BigUint form (width W): width/signed/form of self unchanged; payload, mask = the value truncated to W (mod 2^W), zero-extended if narrower (NOT sign-extended), an all-bit literal replicated over W positions; wf",
     "agreement lemmas": "lemma_agree_bit / lemma_agree_bitops / lemma_agree_arith: a u64 word and the natural number it denotes have the same bits, nat-level and/or/xor are the machine operations, "
                         "wrapping add/sub/mul are the operations modulo 2^64 - so the contracts here, read at operands that fit 64 bits, are the functions opeval's reference computes on words",
 }
@@ -692,6 +703,11 @@ CANARIES = [
                         "signed, vs(x), vm(y) == 0, vp(y) > usize::MAX, vm(x) != 0 ensures false {}"),
     ("vp_canary_red", "proof fn vp_canary_red(x: Value, width: usize) requires wf(x), x is BigUint, 1 <= width <= 0xffff_ffff, vm(x) != 0, vp(x) != 0 ensures false {}"),
     ("vp_canary_bigint", "proof fn vp_canary_bigint(b: BigInt, width: usize) requires width <= 0xffff_ffff, abs(iv(b)) < pow2(width as nat), iv(b) < 0 ensures false {}"),
+    ("vp_canary_select", "proof fn vp_canary_select(v: Value, beg: usize, end: usize) requires wf(v), v is BigUint, beg >= end, beg - end < 0xffff_ffff, beg - end + 1 <= 64, beg >= vw(v), vm(v) != 0, vs(v) ensures false {}"),
+    ("vp_canary_trunc", "proof fn vp_canary_trunc(v: Value, width: usize) requires wf(v), v is BigUint, 1 <= width <= 64, vm(v) >= pow2(width as nat), vs(v) ensures false {}"),
+    ("vp_canary_concat", "proof fn vp_canary_concat(a: Value, b: Value) requires wf(a), wf(b), a is U64, b is U64, vw(a) >= 1, vw(b) >= 1, 64 < vw(a) + vw(b) <= 0xffff_ffff, vm(a) != 0, vp(b) != 0 ensures false {}"),
+    ("vp_canary_assign", "proof fn vp_canary_assign(v: Value, x: Value, beg: usize, end: usize) requires wf(v), v is BigUint, wf(x), x is U64, end <= beg < vw(v), vm(x) != 0, vw(x) > beg - end + 1 ensures false {}"),
+    ("vp_canary_set_value", "proof fn vp_canary_set_value(v: Value, x: Value) requires wf(v), v is BigUint, wf(x), vw(x) == 0, vp(x) == 1, vm(x) == 1 ensures false {}"),
     ("vp_canary_stub", "proof fn vp_canary_stub(a: BigUint, b: BigUint) requires bv(a) == 5, bv(b) == 3 ensures false { broadcast use lemma_band_bit, lemma_bor_bit, lemma_bxor_bit, lemma_low_bit, lemma_bit_high, lemma_mod_bit, lemma_shl_bit, lemma_shr_bit, lemma_bit0; }"),
 ]
 
@@ -704,6 +720,6 @@ def replay(ctx, res, f):
     otext, _ = VL.op_module(ctx)
     body = "#![allow(unused, unexpected_cfgs, dead_code)]\n" + NATIVE_RNG + VL.PRELUDE + vtext + otext + ctx.unit_file("bigeval", "replay.rs")
     fn = getattr(f.get("obl"), "fn", None) or ""
-    sel = fn if fn.startswith("arm_") else "all"
-    n = 6000 if sel != "all" else 1500
+    sel = fn if fn else "all"          # an arm: that operator only; a value primitive: the primitive tests; any other function: everything
+    n = 6000 if sel.startswith("arm_") else 1500
     return native_search(ctx, "bigeval", "bigeval", body, args=[ctx.seed, sel, n], timeout=1500, deps=VL.DEPS)
